@@ -341,6 +341,18 @@ func (ex *Exec) intrinsic(f *ssa.Function) intrinsicFn {
 				return callOut{v: Scalar{app("flag_int", SBV(64))}}
 			}
 		}
+	case "github.com/eclipse/paho.mqtt.golang/packets.ReadPacket":
+		// trusted (A-PAHO): reads one MQTT packet; on success the result is a
+		// non-nil control packet (one of paho's packet types, no typed nil)
+		return func(ex *Exec, s *State, instr ssa.Instruction, args []Val) callOut {
+			pk := s.declare(ex.g.fresh("mqpkt"), SIface)
+			ex.assumeWF(s, pk, nil)
+			e := s.declare(ex.g.fresh("rerr"), SIface)
+			ex.assumeWF(s, e, nil)
+			s.assume(Implies(Eq(e, TNilI), Not(Eq(pk, TNilI))))
+			ex.usedAssume["A-PAHO: paho's ReadPacket returns a non-nil control packet or an error"] = true
+			return callOut{v: TupleV{Scalar{pk}, Scalar{e}}}
+		}
 	case "(time.Duration).Seconds":
 		return func(ex *Exec, s *State, instr ssa.Instruction, args []Val) callOut {
 			// floating point is not modelled: an unconstrained value
